@@ -230,3 +230,24 @@ def c18(ctx):
         tool_job(ctx, 'inherit', 'internal/targets', 'targets', [H(ctx, 'C18', 'inherit_h.go')], unwind=16, deadline_s=900 if q else 3000,
                  only=['H_inherit2', 'H_inherit3'] if q else ['H_inherit2', 'H_inherit3', 'H_inherit3full'], extra=['--recursion-fails', 'C18.inherit.terminates', '--maxdepth', '40']),
     ]
+
+
+def c20_replay(job, h, model, d, test, mf):
+    """R1 replay for C20: a real archive built from the model, the real
+    extract function, the real file system (temp dir)."""
+    C = _check()
+    ov = {os.path.join(job.injectdir, 'zz_verif_c20_replay_test.go'): os.path.join(ctx_verif(), 'harness/C20/replay_test.go.txt')}
+    ovf = os.path.join(d, 'ov.json')
+    json.dump({'Replace': ov}, open(ovf, 'w'))
+    return C.sh(['go', 'test', '-vet=off', '-count=1', '-overlay', ovf, '-run', 'TestZZReplayC20', '-v', job.pkg], cwd=job.moddir,
+                env={'SYMX_MODEL': mf, 'SYMX_HARNESS': h}, timeout=600)
+
+
+@prop('C20', level='other', title='archive extraction stays inside its destination')
+def c20(ctx):
+    q = ctx.quick
+    nl, ne = (5, 1) if q else (7, 2)
+    return [
+        tool_job(ctx, 'extract', 'internal/crosscompile', 'crosscompile', [H(ctx, 'C20', 'extract_h.go')], unwind=40,
+                 deadline_s=900 if q else 3000, extra=['--stubs', 'archive:%d:%d' % (nl, ne)], replay=c20_replay),
+    ]
